@@ -196,18 +196,9 @@ pub fn power_check(sb: &Sandbox, case: &Case, cr: &CountRun, n: i64, t: i64, man
             return Err(format!("recovery panicked: {msg}"));
         }
     };
-    if manual_mode {
-        // process crash: strict prefix
-        let hi2 = hi.min(states.len() - 1);
-        if !(lo..=hi2).any(|p| states[p].state == got) {
-            return Err(format!(
-                "manual journal persist: recovered state equals no S_p with {lo} <= p <= {hi2} (operations before the last persist(Buffer) must survive a process crash); vs S_{lo}: {}",
-                state_diff(&got, &states[lo].state)
-            ));
-        }
-    } else {
-        match_loose(&got, states, lo, hi)?;
-    }
+    // both clauses state a lower bound only: keyspace creation/deletion is durable at once, journal
+    // content is a per-keyspace prefix
+    match_loose(&got, states, lo, hi).map_err(|e| if manual_mode { format!("manual journal persist (operations before the last persist(Buffer)/flush point must survive a process crash): {e}") } else { e })?;
     post_recovery_probe(&sb.root, &case.cfg, &got)?;
     Ok(lo >= 1 && m.acked > lo && (manual_mode || lost > 0))
 }
